@@ -24,7 +24,7 @@ NEIGHBORS = {
 }
 
 
-def conf_text() -> str:
+def conf_text(families: str = 'ipv4 unicast;') -> str:
     out = ['process svc {\n  run /bin/true;\n  encoder json;\n}\n']
     for n in NEIGHBORS.values():
         out.append(f"""
@@ -33,7 +33,7 @@ neighbor {n['addr']} {{
   local-address 127.0.0.1;
   local-as {n['local_as']};
   peer-as {n['peer_as']};
-  family {{ ipv4 unicast; }}
+  family {{ {families} }}
   api {{ processes [ svc ]; }}
 }}
 """)
@@ -67,13 +67,13 @@ class FakeProc:
 
 
 class ApiWorld:
-    def __init__(self, api_version: int = 6, ack: bool = True) -> None:
+    def __init__(self, api_version: int = 6, ack: bool = True, families: str = 'ipv4 unicast;') -> None:
         from exabgp.environment import getenv
 
         RIB._cache.clear()
         getenv().api.version = api_version
         getenv().api.ack = ack
-        self.conf = Configuration([conf_text()], text=True)
+        self.conf = Configuration([conf_text(families)], text=True)
         if not self.conf.reload():
             raise RuntimeError('harness configuration refused: %s' % getattr(self.conf, 'error', ''))
         r = self.reactor = Reactor.__new__(Reactor)
@@ -97,6 +97,7 @@ class ApiWorld:
         finally:
             processes_mod.subprocess.Popen = saved
         r.processes._async_mode = True
+        r.asynchronous.set_error_handler(r.processes.answer_error_sync)   # as Reactor.run() wires it
         self.proc = r.processes._process['svc']
         self.loop = asyncio.new_event_loop()
         self.replies = b''
